@@ -174,6 +174,12 @@ def normPulls (ns : NState) (S : SetM) : List Pull → List Pull
   | [] => []
   | p :: rest => if pullLive ns S p then p :: rest else normPulls ns S rest
 
+/-- the pull is complete after this statement of the member: `iter(x)` has returned / the iterator has yielded or ended -/
+def pullFin (p : Pull) (M M' : Cache.State) (tid : Tid) : Bool :=
+  match p with
+  | .create _ => !(RSet.inDispatch (pcOf M' tid))
+  | .next _ => decide (RSet.yieldedLen M tid < RSet.yieldedLen M' tid) || pcOf M' tid == .done
+
 /-- the single lock of the `shared` variant: held iff some object's lock field is set -/
 def anyLock (ns : NState) : Bool :=
   ns.members.any (fun M => M.sh.lock.isSome) || ns.sets.any (fun S => S.st.sh.lock.isSome)
@@ -207,9 +213,7 @@ def setStep (ns : NState) (si : Nat) (t : Tid) : Option (NState × PC) :=
             match lockStep ns M tid with
             | none => none
             | some M' =>
-              let fin : Bool := match p with
-                | .create _ => !(RSet.inDispatch (pcOf M' tid))
-                | .next _ => decide (RSet.yieldedLen M tid < RSet.yieldedLen M' tid) || pcOf M' tid == .done
+              let fin : Bool := pullFin p M M' tid
               let ns1 : NState := { ns with members := ns.members.set m M' }
               let pulls' := if fin then normPulls ns1 S rest else p :: rest
               some ({ ns1 with sets := ns.sets.set si { S with pulls := pulls' } }, pcOf M' tid)
